@@ -25,6 +25,17 @@ def entry(name, seeded=False, deterministic=False, groups=("c15",), cb=False):
     return deco
 
 
+def split_entry(prefix, builder, whiches, **flags):
+    """Register one entry per sub-function of a grouped builder (better per-function coverage)."""
+    for w in whiches:
+        def build(g, _w=w):
+            return builder(g, _w)
+
+        nm = w if prefix is None else f"{prefix}:{w}"
+        ENTRIES[nm] = dict(name=nm, build=build, seeded=flags.get("seeded", False), deterministic=flags.get("deterministic", False),
+                           groups=flags.get("groups", ("c15",)), cb=False)
+
+
 class Choices:
     def __init__(self, rng=None, replay=None, seed_value=0, callback=None):
         self.rng = rng
@@ -889,11 +900,10 @@ _PROX = [
 ]
 
 
-@entry("proximal", deterministic=True)
-def e_prox(g):
+def e_prox(g, which):
     import tensorly.tenalg.proximal as P
 
-    name, extra = g.choice(_PROX)
+    name, extra = _PROX[int(which.split("#")[1])]
     shape = g.choice([(4, 3), (5, 2), (3, 3)])
     if name in ("svd_thresholding", "procrustes"):
         kw = dict(matrix=g.arr(shape), **extra)
@@ -972,12 +982,10 @@ def e_multi_mode_dot(g):
     return dict(fn=T.multi_mode_dot, kwargs=kw)
 
 
-@entry("kronecker_khatri_rao", deterministic=True)
-def e_kron_kr(g):
+def e_kron_kr(g, which):
     import tensorly.tenalg as T
 
     rs = g.rs()
-    which = g.choice(["khatri_rao", "kronecker"])
     n = g.choice([2, 3])
     mats = [g.arr((g.choice([3, 2]), 2), rs=rs) for _ in range(n)]
     kw = dict(matrices=mats if g.flag() else tuple(mats))
@@ -989,12 +997,10 @@ def e_kron_kr(g):
     return dict(fn=getattr(T, which), kwargs=kw)
 
 
-@entry("inner_outer", deterministic=True)
-def e_inner_outer(g):
+def e_inner_outer(g, which):
     import tensorly.tenalg as T
 
     rs = g.rs()
-    which = g.choice(["inner", "outer", "batched_outer", "tensordot", "moment1"])
     if which == "inner":
         kw = dict(tensor1=g.arr((3, 4, 2), rs=rs), tensor2=g.arr(g.choice([(3, 4, 2), (4, 2)]), rs=rs))
         if kw["tensor2"].ndim == 2:
@@ -1066,12 +1072,10 @@ def e_rsvd(g):
     return dict(fn=randomized_svd, kwargs=kw)
 
 
-@entry("base_unfold_fold", deterministic=True)
-def e_base(g):
+def e_base(g, which):
     import tensorly.base as B
 
     shape = g.shapeN()
-    which = g.choice(["unfold", "tensor_to_vec", "partial_unfold", "partial_tensor_to_vec", "matricize", "fold"])
     t = g.arr(shape)
     if which == "unfold":
         kw = dict(tensor=t, mode=g.int(0, len(shape) - 1))
@@ -1093,16 +1097,15 @@ def e_base(g):
 # =============================================================== factorised tensors
 
 
-@entry("cp_functions", deterministic=True)
-def e_cpfun(g):
+_CPFUN = ["cp_normalize", "cp_flip_sign", "cp_to_tensor", "cp_to_unfolded", "cp_to_vec", "cp_norm", "cp_mode_dot", "cp_mode_dot_inplace",
+          "cp_permute_factors", "cp_lstsq_grad", "CPTensor.mode_dot", "CPTensor.norm"]  # fmt: skip
+
+
+def e_cpfun(g, which):
     import tensorly.cp_tensor as C
 
     shape = g.shape3()
     rank = g.choice([2, 1, 3])
-    which = g.choice(
-        ["cp_normalize", "cp_flip_sign", "cp_to_tensor", "cp_to_unfolded", "cp_to_vec", "cp_norm", "cp_mode_dot", "cp_mode_dot_inplace",
-         "cp_permute_factors", "cp_lstsq_grad", "CPTensor.mode_dot", "CPTensor.norm"]
-    )  # fmt: skip
     g.notes["which"] = which
     cp = g.cp_init(shape, rank)
     exempt = []
@@ -1130,6 +1133,8 @@ def e_cpfun(g):
         g.opt(kw, "keep_dim", [True], 0.3)
         if which == "cp_mode_dot_inplace":
             exempt = ["cp_tensor"]  # documented: copy=False operates in place
+            if not isinstance(cp, C.CPTensor):
+                kw["cp_tensor"] = C.CPTensor(tuple(cp))
         return dict(fn=C.cp_mode_dot, kwargs=kw, exempt=exempt)
     if which == "cp_permute_factors":
         # the function requires CPTensor objects (it calls .cp_copy())
@@ -1152,13 +1157,14 @@ def e_cpfun(g):
     return dict(fn=lambda cp_tensor: cp_tensor.norm(), kwargs=dict(cp_tensor=obj))
 
 
-@entry("tucker_functions", deterministic=True)
-def e_tuckerfun(g):
+_TUCKERFUN = ["tucker_to_tensor", "tucker_to_unfolded", "tucker_to_vec", "tucker_mode_dot", "tucker_mode_dot_inplace", "tucker_normalize"]
+
+
+def e_tuckerfun(g, which):
     import tensorly.tucker_tensor as K
 
     shape = g.shape3()
     ranks = [2, 2, 2]
-    which = g.choice(["tucker_to_tensor", "tucker_to_unfolded", "tucker_to_vec", "tucker_mode_dot", "tucker_mode_dot_inplace", "tucker_normalize"])
     g.notes["which"] = which
     tk = g.tucker_init(shape, ranks)
     if which == "tucker_to_tensor":
@@ -1178,15 +1184,16 @@ def e_tuckerfun(g):
     return dict(fn=K.tucker_mode_dot, kwargs=kw, exempt=["tucker_tensor"] if which.endswith("inplace") else [])
 
 
-@entry("tt_tr_functions", deterministic=True)
-def e_ttfun(g):
+_TTFUN = ["tt_to_tensor", "tt_to_unfolded", "tt_to_vec", "pad_tt_rank", "tr_to_tensor", "tr_to_unfolded", "tr_to_vec",
+          "tt_matrix_to_tensor", "tt_matrix_to_matrix", "tt_matrix_to_unfolded", "tt_matrix_to_vec"]  # fmt: skip
+
+
+def e_ttfun(g, which):
     import tensorly.tt_tensor as TT
     import tensorly.tr_tensor as TR
     import tensorly.tt_matrix as TM
 
     rs = g.rs()
-    which = g.choice(["tt_to_tensor", "tt_to_unfolded", "tt_to_vec", "pad_tt_rank", "tr_to_tensor", "tr_to_unfolded", "tr_to_vec",
-                      "tt_matrix_to_tensor", "tt_matrix_to_matrix", "tt_matrix_to_unfolded", "tt_matrix_to_vec"])  # fmt: skip
     g.notes["which"] = which
     form = g.choice(["list", "tuple", "obj"])
     if which.startswith("tt_matrix"):
@@ -1218,13 +1225,14 @@ def e_ttfun(g):
     return dict(fn=getattr(TT, which), kwargs=kw)
 
 
-@entry("parafac2_functions", deterministic=True)
-def e_p2fun(g):
+_P2FUN = ["parafac2_to_tensor", "parafac2_to_slices", "parafac2_to_slice", "parafac2_to_unfolded", "parafac2_to_vec",
+          "parafac2_normalise", "apply_parafac2_projections", "from_CPTensor"]  # fmt: skip
+
+
+def e_p2fun(g, which):
     import tensorly.parafac2_tensor as P2
     from tensorly.random import random_parafac2
 
-    which = g.choice(["parafac2_to_tensor", "parafac2_to_slices", "parafac2_to_slice", "parafac2_to_unfolded", "parafac2_to_vec",
-                      "parafac2_normalise", "apply_parafac2_projections", "from_CPTensor"])  # fmt: skip
     g.notes["which"] = which
     shapes = g.choice([[(4, 3)] * 3, [(4, 3), (3, 3), (5, 3)]])
     rank = g.choice([2, 1])
@@ -1250,16 +1258,17 @@ def e_p2fun(g):
 # =============================================================== metrics / preprocessing
 
 
-@entry("metrics", deterministic=True)
-def e_metrics(g):
+_METRICS = ["congruence_coefficient", "correlation_index", "MSE", "RMSE", "R2_score", "correlation", "covariance",
+            "leverage_score_dist", "vonneumann_entropy", "cp_vonneumann_entropy", "tt_vonneumann_entropy"]  # fmt: skip
+
+
+def e_metrics(g, which):
     import tensorly.metrics as M
     import tensorly.metrics.regression as MR
     from tensorly.metrics.factors import congruence_coefficient
     from tensorly.metrics.similarity import correlation_index
 
     rs = g.rs()
-    which = g.choice(["congruence_coefficient", "correlation_index", "MSE", "RMSE", "R2_score", "correlation", "covariance",
-                      "leverage_score_dist", "vonneumann_entropy", "cp_vonneumann_entropy", "tt_vonneumann_entropy"])  # fmt: skip
     g.notes["which"] = which
     if which == "congruence_coefficient":
         if g.flag():
@@ -1400,11 +1409,9 @@ def e_plsr(g):
 # =============================================================== random generators
 
 
-@entry("random_generators", seeded=True, groups=("c16",))
-def e_random(g):
+def e_random(g, which):
     import tensorly.random as R
 
-    which = g.choice(["random_tensor", "random_cp", "random_tucker", "random_tt", "random_tt_matrix", "random_tr", "random_parafac2"])
     g.notes["which"] = which
     if which == "random_tensor":
         kw = dict(shape=g.shape3())
@@ -1436,11 +1443,9 @@ def e_random(g):
     return dict(fn=getattr(R, which), kwargs=kw)
 
 
-@entry("backend_random", seeded=True, groups=("c16",))
-def e_backend_random(g):
+def e_backend_random(g, which):
     import tensorly as tl
 
-    which = g.choice(["randn", "gamma", "check_random_state"])
     g.notes["which"] = which
     if which == "randn":
         return dict(fn=tl.randn, kwargs=dict(shape=g.choice([(3, 2), (4,)]), seed=g.seed()))
@@ -1451,3 +1456,16 @@ def e_backend_random(g):
         return tl.check_random_state(seed).random_sample(3)
 
     return dict(fn=fn, kwargs=dict(seed=g.seed()))
+
+
+split_entry(None, e_cpfun, _CPFUN, deterministic=True)
+split_entry(None, e_tuckerfun, _TUCKERFUN, deterministic=True)
+split_entry(None, e_ttfun, _TTFUN, deterministic=True)
+split_entry(None, e_p2fun, _P2FUN, deterministic=True)
+split_entry("metrics", e_metrics, _METRICS, deterministic=True)
+split_entry("prox", e_prox, [f"{n}#{i}" for i, (n, _) in enumerate(_PROX)], deterministic=True)
+split_entry(None, e_inner_outer, ["inner", "outer", "batched_outer", "tensordot", "moment1"], deterministic=True)
+split_entry(None, e_kron_kr, ["khatri_rao", "kronecker"], deterministic=True)
+split_entry("base", e_base, ["unfold", "tensor_to_vec", "partial_unfold", "partial_tensor_to_vec", "matricize", "fold"], deterministic=True)
+split_entry(None, e_random, ["random_tensor", "random_cp", "random_tucker", "random_tt", "random_tt_matrix", "random_tr", "random_parafac2"], seeded=True, groups=("c16",))
+split_entry("backend", e_backend_random, ["randn", "gamma", "check_random_state"], seeded=True, groups=("c16",))
